@@ -2178,7 +2178,10 @@ rrul_fill_Sly(echs_instant_t *restrict tgt, size_t nti, rrulsp_t rr)
 					     __CPROVER_assigns(y, m, d, maxd)
 					     __CPROVER_loop_invariant(
 						     1U <= m && m <= 12U && 1U <= d && d <= 100U && y <= 2200U && y + d <= 2200U &&
-						     maxd == (unsigned int)S_MDAYS(y, m))
+						     maxd == (unsigned int)S_MDAYS(y, m) &&
+						     /* nothing happened yet or the month has strictly advanced */
+						     ((y == __CPROVER_loop_entry(y) && m == __CPROVER_loop_entry(m) && d == __CPROVER_loop_entry(d)) ||
+						      y > __CPROVER_loop_entry(y) || (y == __CPROVER_loop_entry(y) && m > __CPROVER_loop_entry(m))))
 					     __CPROVER_decreases(d)
 #endif	/* ECHSE_VERIF */
 					     {
